@@ -367,6 +367,11 @@ func mirrorKind(w *World, r *Report, k *Kind, efi, dfi *FuncInfo) {
 		return m
 	}
 	var W, R []*mrec
+	if os.Getenv("OFV_DEBUG") == k.Name {
+		for _, rc := range es.Recs {
+			fmt.Println("encrec", rc.Off, rc.W, rc.Kind, rc.Src)
+		}
+	}
 	seen := map[string]bool{}
 	for _, rc := range es.Recs {
 		m := conv(rc, false, nil)
@@ -1714,9 +1719,31 @@ func trailingRule(w *World, r *Report) {
 			}
 		}
 		bad := false
+		// `if len(data) == K { return nil }`: the fixed part is all there is — a successful early exit, not a
+		// refusal of trailing bytes (what follows the if handles the longer inputs)
+		doneEarly := map[ast.Expr]bool{}
+		ast.Inspect(dfi.Decl.Body, func(n ast.Node) bool {
+			is, ok := n.(*ast.IfStmt)
+			if !ok || is.Else != nil || len(is.Body.List) != 1 {
+				return true
+			}
+			rs, ok := is.Body.List[0].(*ast.ReturnStmt)
+			if !ok {
+				return true
+			}
+			for _, res := range rs.Results {
+				if id, ok := unparen(res).(*ast.Ident); !ok || id.Name != "nil" {
+					return true
+				}
+			}
+			if be, ok := unparen(is.Cond).(*ast.BinaryExpr); ok && be.Op == token.EQL {
+				doneEarly[be] = true
+			}
+			return true
+		})
 		ast.Inspect(dfi.Decl.Body, func(n ast.Node) bool {
 			be, ok := n.(*ast.BinaryExpr)
-			if !ok || (be.Op != token.NEQ && be.Op != token.EQL) {
+			if !ok || (be.Op != token.NEQ && be.Op != token.EQL) || doneEarly[be] {
 				return true
 			}
 			isLen := func(e ast.Expr) bool {
